@@ -387,7 +387,10 @@ def plain_result(case, obs):
         rows, conds = list(range(P.R)), list(range(P.n))
         ur, up = P.groups_r(), P.groups_p()
         rnd = g.get('random', kind in ('k_fold', 'k_fold_rdm'))
-        if kind == 'k_fold':
+        if kind == 'hand':
+            folds = [{'train': f['train'], 'test': f['test'], 'test_vals': list(f['test'][2])}
+                     for f in L.hand_parts(case, P.ctx)]
+        elif kind == 'k_fold':
             rsel = P.ctx.rcodes(pre[0]) if rnd else ur
             psels = [P.ctx.pcodes(x) for x in pre[1:]] if rnd else [up] * g['kr']
             folds = folds_of(P, rows, conds, None, rsel, psels, g['kr'], g['kp'])
@@ -424,9 +427,15 @@ def plain_result(case, obs):
         out['evals'] = [[[e[j] for e in evs] for j in range(M)]]
         if not case.get('calc_nc', True):
             out['nc'] = [None, None]
-        elif kind == 'k_fold_pattern':
-            ncs = [P.nc_boot(rows, P.conds_of(f['test'][2]), 'index')
-                   for f, e in zip(folds, evs) if not (len(f['train'][1]) <= 2 or len(f['test'][1]) <= 2)]
+        elif not L.ceil_given(case):
+            # no `ceil_set`: the documented ceiling of an evaluated fold is the one of the FULL data
+            # (every RDM its own unit) restricted to the fold's test conditions — whatever RDMs the
+            # test set holds; recomputed with the ceiling function on an object built here from the
+            # case's numbers (all rows, the positions of the test groups)
+            ncs = [P.nc_boot(rows, P.conds_of(f['test_vals']), 'index')
+                   for f in folds
+                   if not (not f['train'][0] or not f['test'][0]
+                           or len(f['train'][1]) <= 2 or len(f['test'][1]) <= 2)]
             out['nc'] = [[c[0] for c in ncs], [c[1] for c in ncs]] if ncs else []
         else:
             out['nc'] = P.nc_cv(rows, conds, folds)
@@ -558,7 +567,15 @@ def check_optimality(obs):
         o = f.get('opt')
         if not o or o['crit'] is None or math.isnan(o['crit']):
             continue
-        for tol, vals in ((1e-9, o['strict']), (1e-4, o['loose'])):
+        # round 5: only the competitors the fitter is *guaranteed* to be no worse than are judged
+        # (`strict`: every candidate of fit_select; fit_optimize's own random starts — BFGS never
+        # accepts an uphill step and the best restart is returned).  The `loose` competitors (unit
+        # vectors, least-squares projection) are NOT guaranteed: BFGS with finite-difference
+        # gradients on the scale-invariant criterion stops early now and then (observed on the
+        # unchanged tree: 3 training conditions, corr, 0.09685 reached vs 0.09891 at the projection;
+        # notes/C04-r5-observation-fit-optimize.json).  How close an optimiser gets is property
+        # C08's subject, C04 only demands that the parameters come from the fold's training set.
+        for tol, vals in ((1e-9, o['strict']),):
             for v in vals:
                 if v is not None and not math.isnan(v) and o['crit'] < v - tol:
                     return (f"model {f['j']}: {o['kind']} fit reaches {o['crit']:.9g} on its training "
